@@ -67,10 +67,16 @@ def enc_event(ev):
     return [3, [] if ev[1] is None else [ev[1]]]
 
 
-def build(events, cfg):
+class HtmlEventBuilder(EventBuilder, bs4.builder.HTMLTreeBuilder):
+    """The same replaying builder on top of the HTML flavour's class-level defaults: every option is still given
+    explicitly (also the empty ones), so none of the flavour's default tables may show through."""
+    NAME = "verif-events-html"
+
+
+def build(events, cfg, html_flavour=False):
     with warnings.catch_warnings():
         warnings.simplefilter("ignore")
-        return BeautifulSoup("x", builder=EventBuilder(events, cfg))
+        return BeautifulSoup("x", builder=(HtmlEventBuilder if html_flavour else EventBuilder)(events, cfg))
 
 
 def preorder(root):
